@@ -413,6 +413,14 @@ fn batch_oracle(c: &BatchCase) -> Result<(), Failure> {
     for t in [c.threads.max(1) as usize, 1usize] {
         let dir = format!("{}/target/scratch/{}-batch-{}", crate::engine::VERIF_DIR, std::process::id(), t);
         let _ = std::fs::remove_dir_all(&dir);
+        // every other case: the single-threaded batch goes into a folder that already holds the logs of an earlier
+        // experiment with ANOTHER configuration (same problems, same run numbers): a batch always runs and overwrites
+        if t == 1 && c.runs % 2 == 1 {
+            let mut pilot = c.conf.clone();
+            pilot.iters += 3;
+            let pilot = pilot.build();
+            let _ = pool(1).install(|| catch(|| par_experiment(&pilot, setup, &problems, runs, &dir, true)));
+        }
         let r = pool(t).install(|| catch(|| par_experiment(&cfg, setup, &problems, runs, &dir, true)));
         match r {
             Ok(Ok(())) => {}
